@@ -29,7 +29,7 @@ EXPLANATION = ('Borrow discipline decided structurally: a compile-fail witness t
                'allocator-assigned field and that every function-local allocation reaches a release/hand-over on every non-exempt '
                'path (this covers the failed-gr_make_face exits); the C09 rules that the lazy table users are dead after preloadAll.  '
                'Allocator balance as a number is NOT decided.')
-FLOORS = {'NOESCAPE': 60, 'WIT': 3, 'TABLETS': 8, 'NOCALLBACK': 4, 'OWNFIELD': 40, 'OWNLOCAL': 12, 'PRELOAD': 2, 'NAMEPRELOAD': 2}
+FLOORS = {'NOESCAPE': 60, 'WIT': 3, 'TABLETS': 9, 'NOCALLBACK': 4, 'OWNFIELD': 40, 'OWNLOCAL': 12, 'PRELOAD': 2, 'NAMEPRELOAD': 2}
 
 ALLOC_FNS = ('graphite2::gralloc', 'graphite2::grzeroalloc', 'malloc', 'calloc', 'realloc')
 
@@ -83,7 +83,35 @@ def _all_paths_pass(fn, start_block, pass_blocks, bypass_edges=(), exempt_blocks
     return True
 
 
+def flagpair(run, fx):
+    """Face::Table::release() decides from `_compressed` whether the buffer in `_p` is the library's own (free) or the application's
+    (release_table).  The flag therefore changes only together with the pointer: in no method of Face::Table can a store to
+    `_compressed` reach a call of release() without a store to `_p` in between -- release() would judge the OLD buffer by the NEW flag
+    (the application's compressed table passed to free(), or the library's buffer passed to the application)."""
+    from .util import reaches_avoiding
+    T = 'graphite2::Face::Table'
+    n = 0
+    for fn in fx.all_fns():
+        if fn.f.get('cls') != T or fn.f.get('implicit'):
+            continue
+        st = [e for _, e in fn.elements() if e['k'] == 'BinaryOperator' and e['op'] == '=' and fn.strip(e['c'][0]).get('d') == T + '::_compressed']
+        ps = [e for _, e in fn.elements() if e['k'] == 'BinaryOperator' and e['op'] == '=' and fn.strip(e['c'][0]).get('d') == T + '::_p']
+        rels = calls_in(fn, T + '::release')
+        for s_ in st:
+            n += 1
+            inst = 'flag and pointer change together in %s @%s' % (fn.q.split('::')[-1], s_['ln'])
+            bad = [r for r in rels if reaches_avoiding(fn, s_, r, avoid=ps)]
+            if bad:
+                run.violated('TABLETS', inst, fn.loc(bad[0]), '`%s` reaches release() at line %s before `_p` is replaced: release() judges the buffer it is about to give up by the flag of '
+                             'the buffer that is about to be installed -- the application\'s table goes to free() (or the library\'s own buffer to release_table)' % (fn.render(s_), bad[0]['ln']))
+            else:
+                run.held('TABLETS', inst, fn.loc(s_), 'no release() between this store and the next store of _p')
+    if n < 1:
+        run.broken('TABLETS', 'flag and pointer change together', 'no store to Face::Table::_compressed found outside initialisers', '')
+
+
 def tablets(run, fx):
+    flagpair(run, fx)
     T = 'graphite2::Face::Table'
     rec = fx.record(T)
     fields = [f['n'] for f in rec['fields']]
